@@ -126,6 +126,7 @@ func (x *Exec) builtin(fr *frame, b *ssa.Builtin, args []Value, cc *ssa.CallComm
 		return args[0]
 	case "delete":
 		m := args[0].(*MapV)
+		x.raceMap(m, true)
 		i := x.mapFind(m, args[1])
 		if i >= 0 {
 			m.Keys = append(m.Keys[:i:i], m.Keys[i+1:]...)
@@ -134,11 +135,34 @@ func (x *Exec) builtin(fr *frame, b *ssa.Builtin, args []Value, cc *ssa.CallComm
 		return nil
 	case "close":
 		ch := args[0].(*ChanV)
+		x.raceRelease(ch, true)
 		ch.Ready = c.True()
 		ch.Tag = "closed"
 		return nil
 	case "min", "max":
-		x.unsupported("builtin %s", b.Name())
+		if cc == nil || len(args) == 0 {
+			x.unsupported("builtin %s without type information", b.Name())
+		}
+		_, signed, ok := typeWidth(cc.Args[0].Type())
+		if !ok {
+			x.unsupported("builtin %s on %v", b.Name(), cc.Args[0].Type())
+		}
+		acc := args[0].(*term.Term)
+		lt := func(p, q *term.Term) *term.Term {
+			if signed {
+				return c.SLt(p, q)
+			}
+			return c.ULt(p, q)
+		}
+		for _, a := range args[1:] {
+			t := a.(*term.Term)
+			if b.Name() == "min" {
+				acc = c.Ite(lt(t, acc), t, acc)
+			} else {
+				acc = c.Ite(lt(acc, t), t, acc)
+			}
+		}
+		return acc
 	}
 	x.unsupported("builtin %s on %T", b.Name(), args[0])
 	return nil
@@ -159,6 +183,9 @@ func (x *Exec) appendOp(s Slice, more Value, st types.Type) Value {
 	case Slice:
 		mn := x.cint(m.Len, "append src len")
 		mo := x.cint(m.Off, "append src off")
+		if mn > 0 {
+			x.raceCells(false, m.Arr.Kids[mo:mo+mn]...)
+		}
 		for i := 0; i < mn; i++ {
 			src = append(src, x.loadCell(m.Arr.Kids[mo+i]))
 		}
@@ -176,6 +203,7 @@ func (x *Exec) appendOp(s Slice, more Value, st types.Type) Value {
 		return s
 	}
 	if n+len(src) <= cp {
+		x.raceCells(true, s.Arr.Kids[off+n:off+n+len(src)]...)
 		for i, v := range src {
 			x.storeCell(s.Arr.Kids[off+n+i], v)
 		}
@@ -186,6 +214,9 @@ func (x *Exec) appendOp(s Slice, more Value, st types.Type) Value {
 	ncap := n + len(src)
 	acap := goGrowCap(ncap, cp, et)
 	arr := x.newArrayCell(et, acap)
+	if n > 0 {
+		x.raceCells(false, s.Arr.Kids[off:off+n]...)
+	}
 	for i := 0; i < n; i++ {
 		x.storeCell(arr.Kids[i], x.loadCell(s.Arr.Kids[off+i]))
 	}
@@ -259,6 +290,9 @@ func (x *Exec) copyOp(dst Slice, srcv Value) Value {
 		if sn > dn {
 			sn = dn
 		}
+		if sn > 0 {
+			x.raceCells(false, s.Arr.Kids[so:so+sn]...)
+		}
 		for i := 0; i < sn; i++ {
 			vals = append(vals, x.loadCell(s.Arr.Kids[so+i]))
 		}
@@ -272,6 +306,9 @@ func (x *Exec) copyOp(dst Slice, srcv Value) Value {
 	default:
 		x.unsupported("copy from %T", srcv)
 	}
+	if len(vals) > 0 {
+		x.raceCells(true, dst.Arr.Kids[do:do+len(vals)]...)
+	}
 	for i, v := range vals {
 		x.storeCell(dst.Arr.Kids[do+i], v)
 	}
@@ -284,6 +321,7 @@ func (x *Exec) recv(ch *ChanV, commaOk bool) Value {
 	if ch == nil {
 		panic(pathEnd{"assume", "receive from nil channel blocks forever"})
 	}
+	x.raceAcquire(ch)
 	if len(ch.Buf) > 0 {
 		v := ch.Buf[0]
 		ch.Buf = ch.Buf[1:]
@@ -363,6 +401,9 @@ func (x *Exec) selectOp(fr *frame, ins *ssa.Select) Value {
 		}
 		ch, _ := x.get(fr, st.Chan).(*ChanV)
 		if x.branch(x.chanReady(ch)) {
+			if ch != nil {
+				x.raceAcquire(ch)
+			}
 			if ch != nil && len(ch.Buf) > 0 {
 				ch.Buf = ch.Buf[1:]
 			}
